@@ -21,7 +21,8 @@ theorem hist_split (net : Net) (i : Nat) : hist net i = insOf net (i + 1) ++ (hi
 /-- every link carries an approximation of its ideal content -/
 theorem GInv.approx_link {P : List Val → Prop} {input : List Val} {net : Net} (h : GInv P input net)
     (hP : ∀ j, P (idealAt (semsOf net) input j).1) (i : Nat)
-    (hi : i + 1 < net.nodes.length) :
+    (hi : i + 1 < net.nodes.length)
+    (hu : ∀ (j : Nat) nd, j ≤ i → net.nodes[j]? = some nd → isUnord nd = false) :
     Approx (hist net i) (idealAt (semsOf net) input i).1 (idealAt (semsOf net) input i).2 := by
   induction i with
   | zero => obtain ⟨s, _, hap, _⟩ := h.src; exact hap
@@ -32,7 +33,8 @@ theorem GInv.approx_link {P : List Val → Prop} {input : List Val} {net : Net} 
     obtain ⟨_, hsp, _⟩ := h.mid (i + 1) nd (by omega) hi hn
     have hF : (semsOf net)[i + 1]? = some (midF nd) := by simp [semsOf, hn]
     simp only [idealAt, hF]
-    exact (ih hi').step (hist_split net i) hsp (hP i)
+    exact (ih hi' fun j nd hj => hu j nd (by omega)).step (hist_split net i)
+      (hsp.specM (hu (i + 1) nd (Nat.le_refl _) hn)) (hP i)
 
 /-- what the sink may have observed, against an ideal output list and a list of candidate errors -/
 def SinkOK' (Y : List Val) (es : List Err) (s : SinkSt) : Prop :=
@@ -44,7 +46,8 @@ def SinkOK' (Y : List Val) (es : List Err) (s : SinkSt) : Prop :=
 /-- the sink's record, in every state of every run, against the ideal content of the last link -/
 theorem GInv.sink_ok {P : List Val → Prop} {input : List Val} {net : Net} (h : GInv P input net)
     (hP : ∀ j, P (idealAt (semsOf net) input j).1) (s : SinkSt)
-    (hs : net.sink? = some s) :
+    (hs : net.sink? = some s)
+    (hu : ∀ (j : Nat) nd, net.nodes[j]? = some nd → isUnord nd = false) :
     SinkOK' (idealAt (semsOf net) input (net.nodes.length - 2)).1
             (idealAt (semsOf net) input (net.nodes.length - 2)).2 s := by
   obtain ⟨c, s0, hs0, hsi⟩ := h.sink
@@ -54,7 +57,7 @@ theorem GInv.sink_ok {P : List Val → Prop} {input : List Val} {net : Net} (h :
   have hss : s0 = s := by
     simp only [Net.sink?, hlast] at hs; exact Option.some.inj hs
   subst hss
-  have hap := h.approx_link hP (net.nodes.length - 2) (by omega)
+  have hap := h.approx_link hP (net.nodes.length - 2) (by omega) (fun j nd _ => hu j nd)
   have hsplit := hist_split net (net.nodes.length - 2)
   have hidx : net.nodes.length - 2 + 1 = net.nodes.length - 1 := by omega
   rw [hidx] at hsplit
@@ -88,5 +91,103 @@ theorem GInv.sink_ok {P : List Val → Prop} {input : List Val} {net : Net} (h :
         have : e = e' := by simpa using hte
         subst this
         exact hap.err e (hclosed (some e) ht).1
+
+/-! ### a pipeline that ends in the unordered ParallelMap -/
+
+theorem SubPerm.of_prefix {α : Type} {a b c : List α} (hab : a <+: b) (h : SubPerm b c) : SubPerm a c := by
+  obtain ⟨r, rfl⟩ := hab
+  obtain ⟨t, ht⟩ := h
+  exact ⟨r ++ t, by rw [← List.append_assoc]; exact ht⟩
+
+/-- one unordered stage below an approximated link -/
+theorem Approx.stepU {P : List Val → Prop} {up ins rest outs : List Down} {X : List Val} {es : List Err}
+    {k : Int} {bad : Option Int} {e : Err}
+    (hup : Approx up X es) (hlink : up = ins ++ rest) (hs : SpecU k bad e P ins outs) (hP : P X) :
+    SubPerm (elemsOf outs) (okAll k bad e X) ∧
+    (termOf outs = some none →
+      List.Perm (elemsOf outs) (parRun k bad e X).1 ∧ es = [] ∧ (parRun k bad e X).2 = none) ∧
+    (∀ er, termOf outs = some (some er) → er ∈ es ++ (parRun k bad e X).2.toList) := by
+  have hxs : elemsOf ins <+: X := by
+    have := elemsOf_prefix ins rest; rw [← hlink] at this; exact this.trans hup.pre
+  refine ⟨hs.sub X hxs, ?_, ?_⟩
+  · intro ho
+    obtain ⟨hti, he, hy⟩ := hs.compl ho
+    obtain ⟨h1, h2⟩ := termOf_of_prefix_closed (b := rest) hti
+    rw [← hlink] at h1 h2
+    obtain ⟨hX, hes⟩ := hup.compl h1
+    rw [h2] at hX
+    rw [← hX]; exact ⟨hy, hes, he⟩
+  · intro er ho
+    rcases hs.err er ho with hi | hi
+    · obtain ⟨h1, _⟩ := termOf_of_prefix_closed (b := rest) hi
+      rw [← hlink] at h1
+      exact List.mem_append_left _ (hup.err er h1)
+    · have := hi X hxs hP
+      exact List.mem_append_right _ (by rw [this]; simp)
+
+/-- what the sink may have observed below an unordered last stage: `X`, `es` are the ideal content and the
+    candidate errors of the link ABOVE that stage -/
+def SinkOKU (k : Int) (bad : Option Int) (e : Err) (X : List Val) (es : List Err) (s : SinkSt) : Prop :=
+  s.hooks ≤ 1 ∧ (s.alive = false → s.hooks = 1) ∧
+  SubPerm s.received (okAll k bad e X) ∧
+  (s.alive = false → s.termErr = none →
+    List.Perm s.received (parRun k bad e X).1 ∧ es = [] ∧ (parRun k bad e X).2 = none) ∧
+  (∀ er, s.termErr = some er → er ∈ es ++ (parRun k bad e X).2.toList)
+
+theorem GInv.sink_okU {P : List Val → Prop} {input : List Val} {net : Net} (h : GInv P input net)
+    (hP : ∀ j, P (idealAt (semsOf net) input j).1) (s : SinkSt)
+    (hs : net.sink? = some s)
+    (w : Nat) (k : Int) (bad : Option Int) (e : Err) (st : PMapSt)
+    (h3 : 3 ≤ net.nodes.length)
+    (hlastU : net.nodes[net.nodes.length - 2]? = some (.pmap false w k bad e st))
+    (hu : ∀ (j : Nat) nd, j ≤ net.nodes.length - 3 → net.nodes[j]? = some nd → isUnord nd = false) :
+    SinkOKU k bad e (idealAt (semsOf net) input (net.nodes.length - 3)).1
+            (idealAt (semsOf net) input (net.nodes.length - 3)).2 s := by
+  obtain ⟨c, s0, hs0, hsi⟩ := h.sink
+  have hlast : net.nodes.getLast? = some (.sink c s0) := by
+    rw [List.getLast?_eq_getElem?]; exact hs0
+  have hss : s0 = s := by
+    simp only [Net.sink?, hlast] at hs; exact Option.some.inj hs
+  subst hss
+  have hap := h.approx_link hP (net.nodes.length - 3) (by omega) hu
+  have hidx3 : net.nodes.length - 3 + 1 = net.nodes.length - 2 := by omega
+  obtain ⟨_, hsp, _⟩ := h.mid (net.nodes.length - 2) _ (by omega) (by omega) hlastU
+  have hsp' : SpecU k bad e P (insOf net (net.nodes.length - 2)) (hist net (net.nodes.length - 2)) := hsp
+  have hsplit3 := hist_split net (net.nodes.length - 3)
+  rw [hidx3] at hsplit3
+  obtain ⟨u1, u2, u3⟩ := hap.stepU hsplit3 hsp' (hP _)
+  have hsplit := hist_split net (net.nodes.length - 2)
+  have hidx : net.nodes.length - 2 + 1 = net.nodes.length - 1 := by omega
+  rw [hidx] at hsplit
+  have hpre : elemsOf (insOf net (net.nodes.length - 1)) <+: elemsOf (hist net (net.nodes.length - 2)) := by
+    have := elemsOf_prefix (insOf net (net.nodes.length - 1)) ((hist net (net.nodes.length - 2)).drop (pos net (net.nodes.length - 2)))
+    rw [← hsplit] at this; exact this
+  have hclosed : ∀ t, termOf (insOf net (net.nodes.length - 1)) = some t →
+      termOf (hist net (net.nodes.length - 2)) = some t ∧
+      elemsOf (hist net (net.nodes.length - 2)) = elemsOf (insOf net (net.nodes.length - 1)) := by
+    intro t ht
+    have := termOf_of_prefix_closed (b := (hist net (net.nodes.length - 2)).drop (pos net (net.nodes.length - 2))) ht
+    rw [← hsplit] at this; exact this
+  refine ⟨?_, ?_, ?_, ?_, ?_⟩
+  · by_cases ha : s0.alive = true
+    · rw [(hsi.live ha).2.1]; omega
+    · rw [(hsi.dead (by simpa using ha)).1]; omega
+  · intro ha; exact (hsi.dead ha).1
+  · rw [hsi.recv]; exact SubPerm.of_prefix hpre u1
+  · intro ha he
+    rcases (hsi.dead ha).2.2 with ⟨ht, _⟩ | ⟨e', _, hte⟩
+    · obtain ⟨h1, h2⟩ := hclosed none ht
+      have := u2 h1
+      rw [hsi.recv, ← h2]; exact this
+    · rw [he] at hte; simp at hte
+  · intro er he
+    by_cases ha : s0.alive = true
+    · rw [(hsi.live ha).2.2.2] at he; simp at he
+    · rcases (hsi.dead (by simpa using ha)).2.2 with ⟨_, hn⟩ | ⟨e', ht, hte⟩
+      · rw [hn] at he; simp at he
+      · rw [he] at hte
+        have : er = e' := by simpa using hte
+        subst this
+        exact u3 er (hclosed (some er) ht).1
 
 end GoaktVerif.C45
